@@ -1,7 +1,7 @@
 //@ function BarnettSmartVTMF_dlog__ctor_stream
 //@ contract
 __CPROVER_requires(__CPROVER_is_fresh(self, sizeof(*self)) && IOS_IN_OK(in) && __tmcg_thrown == 0)
-__CPROVER_assigns(__CPROVER_object_whole(self), IOS_IN_ASSIGNS(in), __tmcg_thrown)
+__CPROVER_assigns(__CPROVER_object_whole(self), IOS_IN_ASSIGNS(in), __tmcg_thrown, ghost_pre_tab, ghost_pre_t)
 /* C12: whatever the stream contains, construction ends normally or with a standard exception
  * (malformed number, refused zero modulus) -- no GMP division by zero, no memory error */
 __CPROVER_ensures(__tmcg_thrown == 0 || __tmcg_thrown == TMCG_EXC_runtime_error || __tmcg_thrown == TMCG_EXC_invalid_argument)
@@ -17,7 +17,7 @@ __CPROVER_ensures(__tmcg_thrown == 0 ==> self->F_size == fieldsize && self->G_si
 __CPROVER_requires(__CPROVER_is_fresh(self, sizeof(*self)) && IOS_IN_OK(in) && __tmcg_thrown == 0)
 /* configuration parameters (not wire data): a sensible exponent size */
 __CPROVER_requires(exponentsize >= 2)
-__CPROVER_assigns(__CPROVER_object_whole(self), IOS_IN_ASSIGNS(in), __tmcg_thrown)
+__CPROVER_assigns(__CPROVER_object_whole(self), IOS_IN_ASSIGNS(in), __tmcg_thrown, ghost_pre_tab, ghost_pre_t)
 /* C12: whatever the stream contains, construction ends normally or with a standard exception */
 __CPROVER_ensures(__tmcg_thrown == 0 || __tmcg_thrown == TMCG_EXC_runtime_error || __tmcg_thrown == TMCG_EXC_invalid_argument)
 /* a field prime shorter than the exponent size leaves the error indicator g = 0 */
